@@ -252,6 +252,8 @@ func TestVerifC10Server(t *testing.T) {
 		{PeerType: oc.PEER_TYPE_INTERNAL, AS: 65000, LocalAS: 65000, Address: netip.MustParseAddr("10.0.0.22"), ID: netip.MustParseAddr("10.0.0.22"), LocalID: g.Config.RouterId},
 		{PeerType: oc.PEER_TYPE_EXTERNAL, AS: 65023, LocalAS: 65000, Address: netip.MustParseAddr("10.0.0.23"), ID: netip.MustParseAddr("10.0.0.23"), LocalID: g.Config.RouterId, RouteServerClient: true},
 		{}, // locally originated
+		// a confederation member neighbor in another member AS: an eBGP session as far as route-type is concerned
+		{PeerType: oc.PEER_TYPE_EXTERNAL, AS: 65101, LocalAS: 65000, Confederation: true, Address: netip.MustParseAddr("10.0.0.24"), ID: netip.MustParseAddr("10.0.0.24"), LocalID: g.Config.RouterId},
 	}
 	addr := func() netip.Addr { return netip.MustParseAddr(c10sAddrs[r.intn(len(c10sAddrs))]) }
 
@@ -401,7 +403,7 @@ func TestVerifC10Server(t *testing.T) {
 			t.Fatalf("C10 server: configuration rejected: %v", err)
 		}
 		for ri := 0; ri < 6; ri++ {
-			src := sources[r.pick(0, 1, 2, 3, 3)]
+			src := sources[r.pick(0, 1, 2, 3, 3, 4)]
 			nlri, _ := bgp.NewIPAddrPrefix(netip.MustParsePrefix(fmt.Sprintf("10.%d.%d.0/24", 100+r.intn(3), r.intn(2))))
 			orig := addr()
 			if src.Address.IsValid() && r.chance(60) {
